@@ -35,15 +35,6 @@ EPS = torch.finfo(torch.float64).eps
 # ---------------------------------------------------------------------------------------------
 # (A) helpers
 # ---------------------------------------------------------------------------------------------
-def _pad_nz(nz, value):
-    out = []
-    for st in nz:
-        m = len(st["w"])
-        a = [row + [[0, 1]] for row in st["a"]] + [[[0, 1]] * (m + 1)]
-        out.append(dict(w=st["w"] + [value], u=st["u"] + [value], a=a))
-    return out
-
-
 def _additive_ok(coarse, fine, scale):
     pair = fine.reshape(coarse.size(0), 2, -1).sum(dim=1)
     return float((pair - coarse).abs().max()), 16 * EPS * scale
@@ -146,7 +137,7 @@ def run(ctx):
         diag = case["sde"]["nt"] == "diagonal"
         B = 2
         y0 = torch.tensor([[S.fl(q) for q in case["y0"]]] * B, dtype=S.DT)
-        nz_aug = _pad_nz(case["nz"], [3, 2]) if diag else case["nz"]
+        nz_aug = S.pad_noise(case["nz"]) if diag else case["nz"]
         replay = dict(key=key, c=p["c"], case=case)
         try:
             with torch.no_grad():
